@@ -131,9 +131,6 @@ fn run_cli(ctx: &Ctx, dir: &Path, case: &CliCase) -> Result<CliRun, String> {
     }
     let log = dir.join(".shimlog");
     let _ = std::fs::remove_file(&log);
-    if let Some(o) = &case.output {
-        let _ = std::fs::remove_file(dir.join(o));
-    }
     let mut cmd = Command::new(&bin);
     cmd.args(&case.argv)
         .current_dir(dir)
@@ -319,8 +316,13 @@ fn judge(case: &CliCase, run: &CliRun, refo: &Outcome, reflog: &[crate::job::Log
                     return Some(("garbage-on-io-error".into(), ctxs("after a write error the bytes already written are not a prefix of the CSS")));
                 }
             }
-        } else if !run.stdout.is_empty() || !target.is_empty() {
-            return Some(("css-on-error".into(), ctxs("input could not be read, but CSS was written")));
+        } else {
+            // an output file that was already there may survive untouched when it could not be opened
+            let stale = case.output.as_ref().and_then(|o| case.files.iter().find(|f| &f.0 == o)).map(|f| f.1.as_slice());
+            let untouched = case.output.is_some() && stale == Some(target);
+            if !run.stdout.is_empty() || (!target.is_empty() && !untouched) {
+                return Some(("css-on-error".into(), ctxs("input could not be read, but CSS was written")));
+            }
         }
         None
     }
@@ -392,6 +394,10 @@ fn gen_case(rng: &mut Rng, ctx: &Ctx, pools: &Pools) -> CliCase {
             post.push_str("\na { b: }\n");
         }
     }
+    // a large stylesheet: the CSS no longer fits one write / one pipe buffer
+    if ext == "scss" && rng.chance(0.06) {
+        post.push_str(&format!("\n@for $i from 1 through {} {{ .big-#{{$i}} {{ padding: $i * 1px; margin: 0 auto; }} }}\n", rng.range(1500, 4000)));
+    }
     let text = format!("{}{}{}", pre, body, post);
     let compressed = rng.chance(0.5);
     let quiet = rng.chance(0.35);
@@ -462,7 +468,28 @@ fn gen_case(rng: &mut Rng, ctx: &Ctx, pools: &Pools) -> CliCase {
     if rng.chance(0.35) && !use_stdin {
         let o = "out.css".to_string();
         argv.push(o.clone());
+        // an older, longer output file may already be there: nothing of it may survive
+        if rng.chance(0.35) {
+            let mut old = b"/* stale output of an earlier run */\n".to_vec();
+            for i in 0..rng.range(10, 400) {
+                old.extend_from_slice(format!(".stale-{} {{ left: over; }}\n", i).as_bytes());
+            }
+            files.push((o.clone(), old));
+        }
         output = Some(o);
+    }
+    // input that is not valid UTF-8 (file or stdin): an error, never CSS
+    if rng.chance(0.03) {
+        let bad = b"a { b: c; }\n\xff\xfe { d: e; }\n".to_vec();
+        if let Some(si) = stdin.as_mut() {
+            *si = bad;
+        } else if let Some(e) = &entry {
+            for f in files.iter_mut() {
+                if &f.0 == e {
+                    f.1 = bad.clone();
+                }
+            }
+        }
     }
     CliCase { files, stdin, argv, entry, output, compressed, quiet, unicode: !no_unicode, charset: !no_charset, load_paths, plan: String::new(), shim_seed: 1 + rng.below(1 << 40) }
 }
